@@ -29,8 +29,21 @@ type NodeSize struct {
 type MonitorSpec struct {
 	Role string `json:"role,omitempty"` // "" (none) | record | shared:<name>
 	// fault injected from inside Monitor.Log at the At-th event delivered to this call's monitor (1-based)
-	Fault string `json:"fault,omitempty"` // "" | panic | goexit
+	Fault string `json:"fault,omitempty"` // "" | panic | goexit | nested
 	At    int    `json:"at,omitempty"`
+	// Fault == "nested": at the At-th event the callback itself calls Layout (re-entrant call on the same goroutine)
+	// with these arguments; NestedMon: "" (no monitor) | record (a fresh recording monitor) | same (the outer monitor)
+	Nested    *Call  `json:"nested,omitempty"`
+	NestedMon string `json:"nested_mon,omitempty"`
+}
+
+// NestedRec records a re-entrant Layout call made from inside a monitor callback.
+type NestedRec struct {
+	Parent  int    `json:"parent"`  // index of the outer call
+	Monitor string `json:"monitor"` // identity of the monitor passed to the nested call ("" = none)
+	Invoke  uint64 `json:"invoke"`
+	End     uint64 `json:"end"`
+	Verdict string `json:"verdict"` // OK | PANIC
 }
 
 // Call is one invocation of autog.Layout.
@@ -162,6 +175,7 @@ type Result struct {
 	Outcomes []Outcome  `json:"outcomes"`
 	Solo     []Outcome  `json:"solo,omitempty"` // conc: reference outcomes
 	Events   []Event    `json:"events,omitempty"`
+	Nested   []NestedRec `json:"nested,omitempty"`
 	Conflicts []Conflict `json:"conflicts,omitempty"`
 	SchedFP  string     `json:"sched_fp,omitempty"`
 	SchedRLE []int      `json:"sched_rle,omitempty"`
